@@ -31,8 +31,12 @@ def main():
             engine="hypothesis",
             level_claimed=dict(
                 category="exploration",
-                text=getattr(mod, "LEVEL_TEXT", "Seeded Hypothesis search over generated cases against an explicit oracle; "
-                             "no counter-example within the stated case budget. Exploration, not proof."),
+                text=getattr(mod, "LEVEL_TEXT", None) or (
+                    f"Exploration by generated-input search (Hypothesis, seeded and sharded): {mod.BUDGET['quick']} cases in the quick tier, "
+                    f"{mod.BUDGET['thorough']} with shrinking in the thorough tier, each evaluated against an explicit oracle "
+                    f"({getattr(mod, 'TECHNIQUE', 'reference model')}). A pass means no counter-example among the generated cases; it is not a proof. "
+                    "This is the right level here because the property quantifies over unbounded inputs / configurations / call histories of "
+                    "numpy-numba-scipy code for which an executable oracle exists, while symbolic or exhaustive methods cannot execute that code."),
                 design_ref=f"DESIGN.md section 3, {pid}"),
             level_note="; ".join(getattr(mod, "ASSUMPTIONS", [])),
             technique=getattr(mod, "TECHNIQUE", "property-based testing (Hypothesis) against a reference model"),
